@@ -135,8 +135,9 @@ def gen_case(rng, big):
         "wvel": gen_weights(rng, nx, ny, p_bad / 2),
         "flux": gen_flux(rng, nx, ny, fmode),
         "scale": scale, "rbins": rb,
-        "cf": rng.choice([2.0, 0.5, math.exp(rng.uniform(-7, 7))]),
-        "cw": rng.choice([2.0, 0.5, math.exp(rng.uniform(-7, 7))]),
+        # "multiplied by a positive constant": also physical-unit scales (cgs fluxes ~1e-17, inverse-variance weights)
+        "cf": rng.choice([2.0, 0.5, math.exp(rng.uniform(-7, 7)), 10.0 ** rng.uniform(-22, -14), 10.0 ** rng.uniform(8, 14)]),
+        "cw": rng.choice([2.0, 0.5, math.exp(rng.uniform(-7, 7)), 10.0 ** rng.uniform(-9, -3), 10.0 ** rng.uniform(3, 9)]),
         "u": rng.uniform(20.0, 400.0),
         "swap_seed": rng.randrange(2 ** 31),
         "rbins_as_list": rng.random() < 0.3,
